@@ -9,6 +9,8 @@
                                  loop iterates, the final `Ok/Err` decision;
     * `get_tests`                the filter predicate on keys, the sort, the
                                  display-name and look-up-key expressions;
+    * `Module::get_function`     the look-up key (`format!("pkg.{name}")`), with the
+                                 shape of the look-up checked; `Package::get_function`;
     * `cli` / `cli_inner`        every arm of `match &cli.command`, as monadic
                                  code over the operations named below;
     * the `format!("test#{…}")` name construction of the type checker and of the
@@ -19,7 +21,9 @@
     * the meaning of the `str`/`Option`/iterator methods the generated code
       calls (`rsplit_once`, `map_or`, `starts_with`, `replace`, `strip_prefix`,
       `sort`, `into_iter`, `enumerate`, …);
-    * `Module::get_function` (key = `"pkg." ++ name`, then a signature check);
+    * `Module::get_function` after its key computation (one table look-up, then a
+      signature check; the key computation itself is GENERATED, and so is
+      `Package::get_function`);
     * declaration of functions and tests into a module's name space
       (`declare`: one key per item, a second item with the same key is the
       "declared multiple times" error) and the function table of a package;
@@ -154,6 +158,9 @@ def rsplit_once_char (s : Name) (d : Char) : Option (Name × Name) := rsplitGo d
 def strip_prefix (s p : Name) : Option Name :=
   if p.isPrefixOf s then some (s.drop p.length) else none
 
+/-- `format!("…{a}…{b}…")` with plain placeholders: the concatenation of its pieces -/
+def concat (pieces : List Name) : Name := pieces.flatten
+
 /-- `s.replace(from, to)` for a non-empty `from`: every non-overlapping
     occurrence, left to right.  (`fuel` = remaining length; structural.) -/
 def replaceGo (from_ to : Name) : Nat → Name → Name
@@ -263,9 +270,22 @@ structure TypedFunc where
   info : FnInfo
   deriving DecidableEq, Repr
 
-/-- `Module::get_function::<F>(name)`: key `"pkg." ++ name` must exist and its
-    signature must be the requested one.  (Hand model of
-    src/codegen/mod.rs `Module::get_function`.) -/
+/-- The part of `Module::get_function::<F>` after the key has been computed: ONE look-up of
+    `key` in the table (`None` ↦ `DoesNotExist`), the signature check (`TypeMismatch`), and a
+    handle to the looked-up entry's function.  Hand model; that the code has this shape (one
+    `self.functions.get(&name)`, `get_finalized_function(function_info.id)`) is checked by the
+    translator, which GENERATES the key computation (`Gen.TestRunner.get_function_key`) and
+    `Module_get_function = get_function_at … (get_function_key name)`. -/
+def get_function_at (t : Table) (want : Sig) (key : Name) : RResult TypedFunc FnErr :=
+  match t.find key with
+  | none => .Err .doesNotExist
+  | some info => if info.sig = want then .Ok ⟨key, info⟩ else .Err .typeMismatch
+
+/-- SPECIFICATION of `Module::get_function::<F>(name)`: names are paths from the root of the
+    package — the key `"pkg." ++ name`, and no other, must exist and have the requested
+    signature.  (`TRL.Module_get_function_spec` proves the generated function equal to this;
+    a look-up that also accepts other spellings of a name — `pkg.f` for the root's `f`, which
+    is the name of `f` in a submodule called `pkg` — is not.) -/
 def get_function (t : Table) (want : Sig) (name : Name) : RResult TypedFunc FnErr :=
   match t.find (pkgDot ++ name) with
   | none => .Err .doesNotExist
